@@ -12,7 +12,14 @@ cuEntry, statsOf, runCache, implKey, chi2Mix` are the hand-written rest of the e
 runs.  The stencils are polymorphic: statements are over an arbitrary field `K` (ℚ for the driver), all points, all step sizes ≠ 0.
 `quadForm` (Lemmas/Godambe.lean) is the class of test functions "every quadratic in n parameters", not code.  §3b instantiates the
 generated matrix expressions at Mathlib's matrices; §3c is real analysis (the closed forms of linear Poisson models that the L3 oracle
-uses) — the O(eps²) agreement of the finite differences with them is numerical only.
+uses).  §3e (round 5) proves the order statement over ℝ for the class the property names – Poisson log-likelihoods whose means are AFFINE
+in the parameters: the generated stencils `gradC/hessDiagC/hessOffC` (and `getGradEntry/getHessEntry`, the definitions the driver runs,
+instantiated at ℝ) applied to `Σ llBin(mᵢ, dᵢ, log mᵢ, ·)` (the generated per-entry expression with the true logarithm) differ from the exact
+derivatives by at most C·h² / C·eps² with explicit constants (helper analysis: Lemmas/GodambeOrder.lean – Taylor remainders of log from
+Mathlib's `abs_log_sub_add_sum_range_le`; GodambeStencilOrder.lean – per entry, linearity of the stencils in the function;
+GodambeModelOrder.lean – sums, n-parameter affine models; GodambeJOrder.lean – J and cU); first order for the one-sided stencils.  What
+remains numerical: the propagation through the matrix inverses (GIM, uncertainties, LRT, adjusted Wald, score) and multinom/log.
+§3f: folded data (the model is folded by `ll_per_bin`; folding is linear, so linear models stay linear) and P-population corners.
 
 Two statements were *false of the originally pinned tree* (findings F-19a, F-19b, since repaired): `C19_chi2_scalar_array`
 (`sum_chi2_ppf` left `scalar_input` unbound for array input) and `C19_cache_transparent` (the cache key contained only
@@ -680,6 +687,45 @@ example : (∑ c ∈ Finset.range 3, |(2 : ℝ)| * |(1 : ℝ)| ^ 3) ≤ (Finset.
     (by intro c _; norm_num)).1
 
 end OrderOfAccuracy
+
+section WaldOrg
+open Matrix
+variable {m : ℕ}
+
+/-- the generated matrix expressions over real matrices ((m+1)×(m+1), `[0,0]` read off; a column vector = a matrix whose other columns are 0) -/
+noncomputable def matOpsR (m : ℕ) : MatOps (Matrix (Fin (m + 1)) (Fin (m + 1)) ℝ) ℝ where
+  dot := fun a b => a * b
+  inv := fun a => a⁻¹
+  transpose := Matrix.transpose
+  trace := Matrix.trace
+  entry00 := fun a => a 0 0
+
+/-- a derived quantity that needs no matrix inverse: the unadjusted Wald statistic `dᵀ·H·d` (generated `waldOrg`) is linear in H, so an
+    entrywise error δ of H (δ = C·eps² by `C19_get_hess_order`) gives an error of at most `(Σ|dᵢ|)²·δ` -/
+theorem C19_wald_org_order (D G H H' : Matrix (Fin (m + 1)) (Fin (m + 1)) ℝ) (δ : ℝ) (h : ∀ i j, |H' i j - H i j| ≤ δ) :
+    |(waldOrg (matOpsR m) D G H') 0 0 - (waldOrg (matOpsR m) D G H) 0 0| ≤ (∑ i, |D i 0|) ^ 2 * δ := by
+  have e : (waldOrg (matOpsR m) D G H') 0 0 - (waldOrg (matOpsR m) D G H) 0 0 = ∑ j, ∑ i, D i 0 * (H' i j - H i j) * D j 0 := by
+    simp only [waldOrg, matOpsR, Matrix.mul_apply, Matrix.transpose_apply, ← Finset.sum_sub_distrib, Finset.sum_mul]
+    refine Finset.sum_congr rfl (fun j _ => ?_)
+    refine Finset.sum_congr rfl (fun i _ => ?_)
+    ring
+  rw [e]
+  calc |∑ j, ∑ i, D i 0 * (H' i j - H i j) * D j 0| ≤ ∑ j, ∑ i, |D i 0| * δ * |D j 0| := by
+        refine (Finset.abs_sum_le_sum_abs _ _).trans (Finset.sum_le_sum fun j _ => ?_)
+        refine (Finset.abs_sum_le_sum_abs _ _).trans (Finset.sum_le_sum fun i _ => ?_)
+        rw [abs_mul, abs_mul]
+        exact mul_le_mul_of_nonneg_right (mul_le_mul_of_nonneg_left (h i j) (abs_nonneg _)) (abs_nonneg _)
+    _ = (∑ i, |D i 0|) ^ 2 * δ := by
+        rw [sq, Finset.sum_mul_sum, Finset.sum_mul, Finset.sum_comm]
+        refine Finset.sum_congr rfl (fun i _ => ?_)
+        rw [Finset.sum_mul]
+        refine Finset.sum_congr rfl (fun j _ => ?_)
+        ring
+
+example : |(waldOrg (matOpsR 1) !![1, 0; 2, 0] 0 !![3, 1; 1, 5]) 0 0 - (waldOrg (matOpsR 1) !![1, 0; 2, 0] 0 !![3, 1; 1, 4]) 0 0|
+    ≤ (∑ i, |(!![1, 0; 2, 0] : Matrix (Fin 2) (Fin 2) ℝ) i 0|) ^ 2 * 1 :=
+  C19_wald_org_order _ _ _ _ 1 (by intro i j; fin_cases i <;> fin_cases j <;> norm_num)
+end WaldOrg
 
 /-! ## 3f. folded data, P-population spectra -/
 
